@@ -91,7 +91,7 @@ crate::harnesses! {
 
     /// long exponents, cheap shape: "1e-" + one symbolic digit + 19 digits '9' (20 digits overflow i64 if accumulated):
     /// the exponent accumulation stops at the saturation threshold (no i64 overflow, no panic), the input is consumed.
-    /// @prop C10 C01 C11
+    /// @prop C10 C01 C11~
     /// @feat default radix_format
     /// @bound inputs of the shape 1e-[0-9]9{19}
     /// @fn lexical-parse-float::parse::parse_number (exponent accumulation saturating at 0x10000000)
